@@ -2,8 +2,12 @@ package h
 
 import (
 	"fmt"
+	"os"
+	"path/filepath"
+	"sync"
 	"testing"
 	"testing/synctest"
+	"time"
 )
 
 // T is the test the bubbles hang off; set by the runner (run/main_test.go).
@@ -35,3 +39,76 @@ func Bubble(f func()) (leak, pan string) {
 // Wait blocks until every other goroutine of the current bubble is durably
 // blocked (or has exited).
 func Wait() { synctest.Wait() }
+
+// ---- hang guard -------------------------------------------------------------------------------------
+//
+// An execution normally takes microseconds. Code under test that spins (a busy loop is not "durably
+// blocked", so neither synctest.Wait nor the bubble's exit ever returns) would make a check hang until
+// somebody kills it. The guard turns that into a verdict: an execution that is still running after
+// HangLimit of real time is reported as a violation (with a description of the case) and the process
+// exits 1. This is the only wall-clock criterion in the harness; the limit is five orders of magnitude
+// above the normal duration of an execution.
+
+var HangLimit = 180 * time.Second
+
+// GuardProperty is set by NewRun.
+var GuardProperty string
+
+type guardSlot struct {
+	desc  string
+	start time.Time
+}
+
+var guard struct {
+	mu    sync.Mutex
+	slots map[int64]*guardSlot
+	next  int64
+	once  sync.Once
+}
+
+// StartGuard starts the watchdog. It must be called OUTSIDE any bubble (a goroutine started inside a
+// bubble belongs to it); NewRun does.
+func StartGuard() {
+	guard.once.Do(func() {
+		if n := envInt("VERIF_HANG_LIMIT_S", 0); n > 0 {
+			HangLimit = time.Duration(n) * time.Second
+		}
+		go guardWatch()
+	})
+}
+
+// GuardEnter registers a running execution; call the returned function when it is over.
+func GuardEnter(desc string) func() {
+	guard.mu.Lock()
+	if guard.slots == nil {
+		guard.slots = map[int64]*guardSlot{}
+	}
+	guard.next++
+	id := guard.next
+	guard.slots[id] = &guardSlot{desc: desc, start: time.Now()}
+	guard.mu.Unlock()
+	return func() {
+		guard.mu.Lock()
+		delete(guard.slots, id)
+		guard.mu.Unlock()
+	}
+}
+
+func guardWatch() {
+	for {
+		time.Sleep(5 * time.Second)
+		guard.mu.Lock()
+		for _, s := range guard.slots {
+			if time.Since(s.start) > HangLimit {
+				dir := filepath.Join(Root, "evidence", "replays")
+				os.MkdirAll(dir, 0o755)
+				path := filepath.Join(dir, GuardProperty+"-execution-hangs-1.json")
+				os.WriteFile(path, []byte(fmt.Sprintf("{\n \"property\": %q,\n \"sub\": \"hang\",\n \"finding\": {\"sig\": \"execution-hangs\", \"what\": %q}\n}\n", GuardProperty,
+					fmt.Sprintf("an execution that normally takes microseconds is still running after %s (busy loop or livelock in the code under test): %s", HangLimit, s.desc))), 0o644)
+				fmt.Printf("VIOLATION property=%s replay=%s\n  sig=execution-hangs\n  still running after %s: %s\n", GuardProperty, path, HangLimit, s.desc)
+				os.Exit(1)
+			}
+		}
+		guard.mu.Unlock()
+	}
+}
